@@ -663,6 +663,26 @@ theorem appendDt_sound (x : Sys) (other : Arg) (cfg : DtArg) (h : Adm x.dt other
   · exact hni
   · exact hni
 
+theorem lftDt_sound (x : Sys) (other : Arg) (cfg : DtArg) (h : Adm x.dt other.dt) :
+    Sound (lftDt x other cfg) x.dt other.dt := by
+  have hni : Sound (.error .notImplemented) x.dt other.dt := sound_err _ (by decide) _ _
+  have hss := sound_conv_ctor h (toSS_ok other h.vb cfg) .ss cfg
+  rcases x with ⟨c, d⟩
+  unfold lftDt
+  cases c <;> simp only []
+  · exact hss
+  · exact hni
+  · exact hni
+  · exact hni
+  · exact hni
+
+theorem lftArg_sound (a b : Arg) (cfg : DtArg) (h : Adm a.dt b.dt) :
+    Sound (lftArg a b cfg) a.dt b.dt := by
+  rcases a with x | _ | _
+  · exact lftDt_sound x b cfg h
+  · exact sound_err _ (by decide) _ _
+  · exact sound_err _ (by decide) _ _
+
 /-! ### unary operations -/
 
 theorem powDt_dt (c : Cls) (d : Dt) (hd : d.valid) (cfg : DtArg) :
@@ -1427,5 +1447,39 @@ theorem appendDt_total (cx : Cls) (a : Dt) (y : Arg) (c : Cls) (d : Dt) (cfg : D
       simp only [Arg.dt] at *
       simp [appendDt, toSS, frdOp, toTF, toFRD, mkSys, isConst, ga, gn,
         common_none_left, common_none_right, bind, Except.bind, pure, Except.pure]
+
+/-- class of the result of `x.lft(other)` where defined (`StateSpace.lft`; `other` anything
+`_convert_to_statespace` accepts). -/
+def lftResult : Cls → Kind → Option Cls
+  | .ss, .cls .ss | .ss, .cls .tf | .ss, .scalar | .ss, .array => some .ss
+  | _, _ => Option.none
+
+theorem lftDt_total (cx : Cls) (a : Dt) (y : Arg) (c : Cls) (d : Dt) (cfg : DtArg)
+    (h : Adm a y.dt) (hr : lftResult cx y.kind = some c) (hj : join a y.dt = some d) :
+    lftDt ⟨cx, a⟩ y cfg = .ok ⟨c, d⟩ := by
+  have hd := join_valid h.va h.vb hj
+  have e1 : common a y.dt = .ok d := by rw [common_adm h, hj]; rfl
+  have ga := givenDt_valid h.va cfg
+  have gb := givenDt_valid h.vb cfg
+  have gd := givenDt_valid hd cfg
+  have gn := givenDt_none cfg
+  rcases y with ⟨cy, b⟩ | _ | _
+  · cases cx <;> cases cy <;>
+      simp only [Arg.kind, lftResult, Option.some.injEq, reduceCtorEq] at hr <;> subst hr
+    all_goals
+      simp only [Arg.dt] at *
+      simp [lftDt, toSS, e1, ga, gb, gd, gn, bind, Except.bind, pure, Except.pure]
+  · simp only [Arg.dt, join_none_right, Option.some.injEq] at hj; subst hj
+    cases cx <;> simp only [Arg.kind, lftResult, Option.some.injEq, reduceCtorEq] at hr
+    subst hr
+    all_goals
+      simp only [Arg.dt] at *
+      simp [lftDt, toSS, ga, gn, common_none_left, common_none_right, bind, Except.bind, pure, Except.pure]
+  · simp only [Arg.dt, join_none_right, Option.some.injEq] at hj; subst hj
+    cases cx <;> simp only [Arg.kind, lftResult, Option.some.injEq, reduceCtorEq] at hr
+    subst hr
+    all_goals
+      simp only [Arg.dt] at *
+      simp [lftDt, toSS, ga, gn, common_none_left, common_none_right, bind, Except.bind, pure, Except.pure]
 
 end CtrlVerif
